@@ -43,7 +43,9 @@ func (h *harness) opTarfs(b []byte, how string) {
 					if _, err := fs.Stat(sys, p); err != nil {
 						return nil
 					}
-					if d.Type().IsRegular() || d.Type()&fs.ModeSymlink != 0 {
+					// Symlinks are only opened in the child processes of the search: a
+					// runaway recursion there is a dead worker, here it would be a dead harness.
+					if d.Type().IsRegular() {
 						f, err := sys.Open(p)
 						if err != nil {
 							return nil
